@@ -173,8 +173,15 @@ def validate(prop, root=None, evidence_dir=None):
                     noisy = json.load(fin)
             except OSError:
                 noisy = {}
-            for name in sorted(os.listdir(nd)) if os.path.isdir(nd) else []:
+            # the refactorings written for this property, and a fixed
+            # quarter of all the others (SA_SELFVAL_ALL=1: every one of
+            # them - tools/run_refactors.py does that for all checks)
+            every = os.environ.get("SA_SELFVAL_ALL") == "1"
+            for k_, name in enumerate(sorted(os.listdir(nd))
+                                      if os.path.isdir(nd) else []):
                 p = os.path.join(nd, name, "patch.diff")
+                if not (every or name.split("-")[0] == prop or k_ % 4 == 0):
+                    continue
                 if os.path.exists(p):
                     want = noisy.get(name, {}).get(prop, 0) if isinstance(
                         noisy.get(name), dict) else 0
